@@ -1241,6 +1241,9 @@ pub fn gen_world(tape: &mut Tape, cfg: &GenCfg) -> World {
     }
     w.resolver = Some(r);
   }
+  if !cfg.mixed_attrs {
+    enforce_same_attribute_proviso(&mut w);
+  }
   w.npm.enabled = tape.draw(Stream::World, 2) == 1;
   if w.npm.enabled && tape.draw(Stream::World, 5) == 4 {
     w.npm.fail.insert("chalk".into());
@@ -1249,4 +1252,198 @@ pub fn gen_world(tape: &mut Tape, cfg: &GenCfg) -> World {
     w.npm.dep_graph_fails = true;
   }
   w
+}
+
+/// Where a request for `url` finally lands in this world (explicit and
+/// implicit redirects followed, loops cut).
+pub fn final_target(w: &World, url: &str) -> String {
+  let mut cur = url.to_string();
+  let mut seen = BTreeSet::new();
+  while seen.insert(cur.clone()) {
+    match w.remote.get(&cur) {
+      Some(Entry::Redirect(to)) => cur = to.clone(),
+      Some(Entry::Module {
+        final_url: Some(to),
+        ..
+      }) => cur = to.clone(),
+      _ => break,
+    }
+  }
+  cur
+}
+
+pub fn resolve_text(w: &World, from: &str, text: &str) -> String {
+  if let Some(r) = &w.resolver {
+    if let Some(t) = r.map.get(text) {
+      return t.clone();
+    }
+  }
+  match url::Url::parse(from).ok().and_then(|b| {
+    if text.starts_with("./") || text.starts_with("../") || text.starts_with('/') {
+      b.join(text).ok()
+    } else {
+      url::Url::parse(text).ok()
+    }
+  }) {
+    Some(u) => u.to_string(),
+    None => text.to_string(),
+  }
+}
+
+fn form_carries_attr(f: Form) -> bool {
+  matches!(
+    f,
+    Form::Default
+      | Form::Named
+      | Form::Namespace
+      | Form::SideEffect
+      | Form::ExportStar
+      | Form::ExportNamed
+      | Form::ExportNs
+      | Form::Dynamic
+      | Form::Defer
+  )
+}
+
+/// The statement's proviso: all imports of one target use the same `type`
+/// attribute. Also keeps source-phase imports away from targets that are
+/// imported in another way (a source-phase import of a non-Wasm module turns
+/// the shared entry into an error, which is the same mixing of import kinds).
+pub fn enforce_same_attribute_proviso(w: &mut World) {
+  // pass 1: per final target, can every import carry an attribute, and which
+  // attribute was seen first
+  let mut can: BTreeMap<String, bool> = BTreeMap::new();
+  // targets every import of which is a source-phase import
+  let mut only_source: BTreeMap<String, bool> = BTreeMap::new();
+  let mut first: BTreeMap<String, Option<String>> = BTreeMap::new();
+  let urls: Vec<String> = w.descs.keys().cloned().collect();
+  for u in &urls {
+    let d = w.descs.get(u).unwrap().clone();
+    let mut note = |text: &str, carries: bool, attr: Option<String>| {
+      let t = final_target(w, &resolve_text(w, u, text));
+      let c = can.entry(t.clone()).or_insert(true);
+      *c = *c && carries;
+      // `carries == None`-style callers (pragmas, roots...) are never source
+      // phase; items report theirs through `attr_is_source` below
+      first.entry(t).or_insert(attr);
+    };
+    for it in &d.items {
+      let t = final_target(w, &resolve_text(w, u, &it.spec));
+      let o = only_source.entry(t).or_insert(true);
+      *o = *o && it.form.is_source_phase();
+      if let Some((_, pt)) = &it.types_pragma {
+        let t = final_target(w, &resolve_text(w, u, pt));
+        only_source.insert(t, false);
+      }
+      // an attribute on an import with a types pragma also applies to the
+      // pragma's target, so such imports carry none
+      note(
+        &it.spec,
+        form_carries_attr(it.form)
+          && d.lang.is_script()
+          && it.types_pragma.is_none(),
+        it.attr.clone(),
+      );
+      if let Some((_, t)) = &it.types_pragma {
+        note(t, false, None);
+      }
+    }
+    for t in d
+      .self_types
+      .iter()
+      .chain(d.x_typescript_types.iter())
+      .chain(d.source_map.iter())
+    {
+      note(t, false, None);
+      let ft = final_target(w, &resolve_text(w, u, t));
+      only_source.insert(ft, false);
+    }
+    for t in d.jsx_import_source.iter().chain(d.jsx_import_source_types.iter()) {
+      note(&format!("{}/jsx-runtime", t), false, None);
+    }
+  }
+  for r in w.roots.clone() {
+    let t = final_target(w, &r);
+    can.insert(t, false);
+  }
+  for (_, imps) in w.imports.clone() {
+    for i in imps {
+      let t = final_target(w, &i);
+      can.insert(t, false);
+    }
+  }
+  if let Some(r) = w.resolver.clone() {
+    for t in r.map.values().chain(r.types_map.values()).chain(r.resolve_types.values()) {
+      let t = final_target(w, t);
+      can.insert(t, false);
+    }
+  }
+  // pass 2: rewrite
+  for u in &urls {
+    let mut d = w.descs.get(u).unwrap().clone();
+    let mut changed = false;
+    for it in &mut d.items {
+      let t = final_target(w, &resolve_text(w, u, &it.spec));
+      let attr = if *can.get(&t).unwrap_or(&false) {
+        first.get(&t).cloned().unwrap_or(None)
+      } else {
+        None
+      };
+      if form_carries_attr(it.form) && it.attr != attr {
+        it.attr = attr;
+        changed = true;
+      }
+      if it.form.is_source_phase() && it.types_pragma.is_some() {
+        // the pragma's target would be loaded at source phase as well
+        it.types_pragma = None;
+        changed = true;
+      }
+      if it.form.is_source_phase()
+        && (!t.ends_with(".wasm")
+          || !*only_source.get(&t).unwrap_or(&false)
+          || w.roots.iter().any(|r| final_target(w, r) == t))
+      {
+        it.form = if it.form == Form::Source {
+          Form::Default
+        } else {
+          Form::Dynamic
+        };
+        it.attr = None;
+        changed = true;
+      }
+    }
+    if changed {
+      w.add_desc(d);
+    }
+  }
+  refresh_aliases(w);
+}
+
+/// An alias (a url answered with another final url) serves exactly what the
+/// final url serves.
+pub fn refresh_aliases(w: &mut World) {
+  let aliases: Vec<(String, String)> = w
+    .remote
+    .iter()
+    .filter_map(|(u, e)| match e {
+      Entry::Module {
+        final_url: Some(to),
+        ..
+      } => Some((u.clone(), to.clone())),
+      _ => None,
+    })
+    .collect();
+  for (from, to) in aliases {
+    if let Some(Entry::Module { bytes, headers, .. }) = w.remote.get(&to).cloned()
+    {
+      w.remote.insert(
+        from,
+        Entry::Module {
+          bytes,
+          headers,
+          final_url: Some(to),
+        },
+      );
+    }
+  }
 }
